@@ -34,7 +34,7 @@ REACH = [("yamlpath/common/searches.py", "search_matches", "Searches.search_matc
          ("yamlpath/processor.py", "_get_nodes_by_search", "Processor._get_nodes_by_search")]
 EXHAUSTIVE_NOTE = "the operator x value-pool x term-pool grid (sizes in counters grid_cells)"
 SIZES = {"quick": dict(rnd=400000, part=60000), "thorough": dict(rnd=2500000, part=250000)}
-REQUIRED_COUNTERS = ["grid_cells", "grid_decided", "partition_checked"]
+REQUIRED_COUNTERS = ["grid_cells", "grid_decided", "partition_checked", "anchor_twin_checked", "membership_checked"]
 
 OPS = {"=": PathSearchMethods.EQUALS, "^": PathSearchMethods.STARTS_WITH, "$": PathSearchMethods.ENDS_WITH,
        "%": PathSearchMethods.CONTAINS, ">": PathSearchMethods.GREATER_THAN, "<": PathSearchMethods.LESS_THAN,
@@ -44,7 +44,7 @@ VALUE_SRC = ["null", "true", "false", "0", "1", "-1", "5", "10", "123456789012",
              "0.5", "'5'", "'5.0'", "'1e3'", "' 5'", "'5 '", "'05'", "'+5'", "'10'", "'-1'", "a", "b", "ab", "abc",
              "B", "'a b'", "''", "'True'", "'true'", "'TRUE'", "'false'", "'none'", "'None'", "'null'", "'0x10'",
              "'1_0'", "2020-01-01", "'2020-01-01'", "x.y", "'[a]'", "'1.'", "&b1 true", "&b2 false",
-             "&i1 5", "&s1 ab", "'...'", "'(1)'", "'{[1]: 2}'", "'{[]}'", "'(1,)'", "'[1, 2]'", "'{1, 2}'", "'1+1'",
+             "&i1 5", "&s1 ab", "&f1 1.5", "&n1 -1", "&q1 'true'", "'...'", "'(1)'", "'{[1]: 2}'", "'{[]}'", "'(1,)'", "'[1, 2]'", "'{1, 2}'", "'1+1'",
              "\"'q'\"", ".nan", ".inf", "-.inf", "'\u0663'", "'\uff11\uff12'", "'\u00b2'", "'\u2460'"]     # digits of other scripts are text
 TERMS = ["null", "None", "none", "true", "True", "TRUE", "false", "0", "1", "-1", "5", "10", "1.0", "1.5", "-0.0",
          "1e3", "1000.0", "5.0", " 5", "05", "+5", "a", "b", "ab", "abc", "B", "a b", "t", "T", "0x", "0x10", "16",
@@ -94,6 +94,19 @@ def check_cell(ctx, op, src, value, term):
         else:
             ctx.violation("raises/%s/%s" % (op, type(e).__name__), {
                 "case": {"op": op, "value_src": src, "term": term}, "summary": "%s: %s" % (type(e).__name__, e)})
+            return
+    if src.startswith("&") and got in (True, False):
+        # an anchor is not data: the same scalar without its anchor must get the same answer (ruamel gives anchored
+        # scalars other Python types - ScalarBoolean, ScalarInt, PlainScalarString)
+        try:
+            twin = Searches.search_matches(OPS[op], term, yp.load("[%s]" % src.split(" ", 1)[1])[0])
+        except Exception:
+            twin = None
+        ctx.counters["anchor_twin_checked"] = ctx.counters.get("anchor_twin_checked", 0) + 1
+        if twin in (True, False) and twin != got:
+            ctx.violation("anchor-changes-answer/%s" % op, {
+                "case": {"op": op, "value_src": src, "term": term},
+                "summary": "search_matches(%s, %r, %s) = %r but %r for the same scalar without the anchor" % (op, term, src, got, twin)})
             return
     if exp == "bad-regex":
         ctx.count("ill_formed_regex_cells")
@@ -150,6 +163,25 @@ def partition(ctx, doc_text, data, coll_path, coll, op, term):
           and sorted(map(repr, locp + loci)) == sorted(map(repr, children)))
     if len(children) >= 2 and locp and loci:
         ctx.mark_nontrivial([doc_text, base, op, term])
+    # membership through the Processor (the term travels the whole way from the path text to the comparator): every scalar
+    # child the documented rules put in / keep out of the plain result must be there / must not
+    if isinstance(coll, list) and not yp.is_set(coll) and ok:
+        for i, child in enumerate(coll):
+            if yp.is_container(child):
+                continue
+            try:
+                want = M.decide(op, child, term)
+            except re.error:
+                want = None
+            if want is None:
+                continue
+            ctx.counters["membership_checked"] = ctx.counters.get("membership_checked", 0) + 1
+            if (i in locp) != want:
+                ctx.violation("processor-search-membership/%s" % op, {
+                    "case": {"doc": doc_text, "path": base, "op": op, "term": term},
+                    "summary": "element %d (%r) %s the result of [.%s%s]; documented rules say it %s" % (
+                        i, child, "is in" if i in locp else "is not in", op, t, "must be" if want else "must not be")})
+                break
     if not ok:
         kind = "map" if isinstance(coll, dict) else "seq" if isinstance(coll, list) else "set"
         ctx.violation("inversion-not-complement/%s" % kind, {
